@@ -223,6 +223,44 @@ func (fi *FuncInfo) headerInvariants(hb *ssa.BasicBlock) {
 				cands = append(cands, &invariant{kind: invLELen, phi: p, s: s}, &invariant{kind: invLTLen, phi: p, s: s})
 			}
 		}
+		if isLoop && !phiIsLen(p) {
+			// the loop's own exit test against a loop-invariant bound B:
+			// φ < B keeps φ <= B, φ <= B keeps φ <= B+1 (and the mirror images)
+			if iff, ok := hb.Instrs[len(hb.Instrs)-1].(*ssa.If); ok {
+				if bo, ok := iff.Cond.(*ssa.BinOp); ok {
+					op, bound := bo.Op, ssa.Value(nil)
+					if bo.X == ssa.Value(p) && definedAbove(bo.Y, hb) {
+						bound = bo.Y
+					} else if bo.Y == ssa.Value(p) && definedAbove(bo.X, hb) {
+						bound = bo.X
+						switch op {
+						case token.LSS:
+							op = token.GTR
+						case token.LEQ:
+							op = token.GEQ
+						case token.GTR:
+							op = token.LSS
+						case token.GEQ:
+							op = token.LEQ
+						}
+					}
+					if bound != nil {
+						if _, _, isInt := isIntType(bound.Type()); isInt {
+							switch op {
+							case token.LSS:
+								cands = append(cands, &invariant{kind: invLE, phi: p, e: bound})
+							case token.LEQ:
+								cands = append(cands, &invariant{kind: invHullHi, phi: p, e: bound, k: big.NewInt(1)})
+							case token.GTR:
+								cands = append(cands, &invariant{kind: invGE, phi: p, e: bound})
+							case token.GEQ:
+								cands = append(cands, &invariant{kind: invHullLo, phi: p, e: bound, k: big.NewInt(-1)})
+							}
+						}
+					}
+				}
+			}
+		}
 		for _, iv := range cands {
 			fi.invC[p] = append(fi.invC[p], *iv)
 		}
